@@ -60,7 +60,10 @@ func (gi *gitlabImporter) ImportAll(ctx context.Context, repo *cache.RepoCache, 
 	go func() {
 		defer close(out)
 
-		for issue := range Issues(ctx, gi.client, gi.conf[confKeyProjectID], since) {
+		onListErr := func(err error) {
+			out <- core.NewImportError(fmt.Errorf("issue listing: %v", err), "")
+		}
+		for issue := range Issues(ctx, gi.client, gi.conf[confKeyProjectID], since, onListErr) {
 
 			b, err := gi.ensureIssue(repo, issue)
 			if err != nil {
